@@ -1,0 +1,40 @@
+//go:build verif
+
+package server
+
+import (
+	"net/http"
+
+	"github.com/vicanso/elton"
+)
+
+// VerifListen, when set, replaces net.Listen + http.Server.Serve: the handler
+// that would have been served on addr is handed to it (verification builds only).
+var VerifListen func(addr string, h http.Handler) error
+
+// VerifCloseListener is told when the listener of addr would have been closed.
+var VerifCloseListener func(addr string, h http.Handler)
+
+func verifListen(s *server, e *elton.Elton) (bool, error) {
+	if VerifListen == nil {
+		return false, nil
+	}
+	err := VerifListen(s.addr, e)
+	if err != nil {
+		return true, err
+	}
+	s.listening = true
+	s.e = e
+	s.listenAddr = s.addr
+	return true, nil
+}
+
+func verifCloseListener(s *server) bool {
+	if s.ln != nil {
+		return false
+	}
+	if VerifCloseListener != nil {
+		VerifCloseListener(s.addr, s.e)
+	}
+	return true
+}
